@@ -79,6 +79,18 @@ ZoomClauses(e) ==
      <<"levelBinsize", \A r \in want : LevelOf(e.obs.levels, r).raw.binsize \in {r, 0}>> >>
   \o FlatCSR([j \in DOMAIN e.obs.levels |-> e.obs.levels[j].raw], 1)
 
+(* zm.multibase: bases that are not coarsenings of one another; each level has exactly one base it can come from *)
+MultiBaseClauses(e) ==
+  LET bases == e.case.bases
+      want == Range(e.case.resolutions) \cup {bases[k].res : k \in DOMAIN bases}
+      BaseOf(r) == CHOOSE k \in DOMAIN bases : r % bases[k].res = 0
+  IN
+  << <<"layoutExact", {x.res : x \in Range(e.obs.levels)} = want /\ Len(e.obs.levels) = Cardinality(want)>>,
+     <<"levelIsDirectCoarseningOfItsBase", \A r \in want : \A x \in Range(e.obs.levels) : x.res = r =>
+          LET b == bases[BaseOf(r)] IN
+          /\ x.px = (IF r = b.res THEN b.px ELSE CoarsenBy(b.table, r \div b.res, b.px, <<"sum">>))
+          /\ x.table = (IF r = b.res THEN b.table ELSE CoarsenTable(b.table, r \div b.res))>> >>
+
 (* zm.resspec: `cooler zoomify -r <spec>`: the levels written = the expansion of the spec *)
 Nice(start, stop) ==
   LET cand == {start * m * (10 ^ p) : m \in {1, 2, 5}, p \in 0..4} IN SetToSortSeq({x \in cand : x <= stop}, <)
@@ -112,6 +124,7 @@ Clauses(e) ==
     [] e.drv = "co.algebra"    -> AlgebraClauses(e)
     [] e.drv = "zm.multiplier" -> MultiplierClauses(e)
     [] e.drv = "zm.zoomify"    -> ZoomClauses(e)
+    [] e.drv = "zm.multibase"  -> MultiBaseClauses(e)
     [] e.drv = "zm.resspec"    -> ResSpecClauses(e)
     [] OTHER -> << <<"unknownDriver", FALSE>> >>
 
